@@ -140,9 +140,13 @@ impl ServerState {
 
   pub fn update(&mut self, updates: Vec<(ModuleReference, String)>) {
     let mut error_set = ErrorSet::new();
-    let initial_update_set = updates.iter().map(|(m, _)| *m).collect::<HashSet<_>>();
+    // ROOT is reserved for the builtin signature in global_cx; it is never a source file.
     // Only the last text of a module in the batch counts.
-    let updates = updates.into_iter().collect::<HashMap<_, _>>();
+    let updates = updates
+      .into_iter()
+      .filter(|(m, _)| *m != ModuleReference::ROOT)
+      .collect::<HashMap<_, _>>();
+    let initial_update_set = updates.keys().copied().collect::<HashSet<_>>();
     for (mod_ref, source_code) in updates {
       self.errors.remove(&mod_ref);
       let parsed = samlang_parser::parse_source_module_from_text(
@@ -164,6 +168,11 @@ impl ServerState {
     // Syntax errors of the moved texts, by the name the text currently has:
     // a later rename in the same batch may move or overwrite the text again.
     let mut syntax_errors = HashMap::<ModuleReference, ErrorSet>::new();
+    // ROOT is reserved for the builtin signature in global_cx; it is never a source file.
+    let renames = renames
+      .into_iter()
+      .filter(|(a, b)| *a != ModuleReference::ROOT && *b != ModuleReference::ROOT)
+      .collect::<Vec<_>>();
     let recheck_set = self
       .dep_graph
       .affected_set(renames.iter().flat_map(|(a, b)| vec![*a, *b].into_iter()).collect());
@@ -199,8 +208,12 @@ impl ServerState {
   }
 
   pub fn remove(&mut self, module_references: &[ModuleReference]) {
+    // ROOT is reserved for the builtin signature in global_cx; it is never a source file.
+    // (The LSP layer maps files it does not know to ROOT.)
+    let module_references =
+      module_references.iter().copied().filter(|m| *m != ModuleReference::ROOT).collect::<Vec<_>>();
     let recheck_set = self.dep_graph.affected_set(module_references.iter().copied().collect());
-    for mod_ref in module_references {
+    for mod_ref in &module_references {
       self.string_sources.remove(mod_ref);
       self.parsed_modules.remove(mod_ref);
       self.errors.remove(mod_ref);
